@@ -157,3 +157,24 @@ func init() {
 		return []Val{{T: r}}
 	}
 }
+
+func init() {
+	// slices.Contains(s, v): for integer slices, membership through the choice function idxOf of the lists prelude
+	// (true iff some element equals v); for other element types an arbitrary boolean
+	externals["slices.Contains"] = func(f *Frame, ns *nodeState, x *ssa.Call, fn *ssa.Function, args []Val) []Val {
+		ex, vc := f.ex, f.ex.vc
+		s := ex.viewOf(ns.st, args[0])
+		r := vc.Declare(f.prefix+"contains", SBool)
+		v := args[1].T
+		if s.Sort.Elem != nil && s.Sort.Elem.Kind == KInt && v.Sort != nil && v.Sort.Kind == KInt {
+			ex.needPrelude("lists")
+			i := App(SInt, "idxOf", s, v)
+			in := And(leT(IntLit64(0, SInt), i), ltT(i, slLen(s)), Eq(Select(slArr(s), i), v))
+			vc.Assume(Implies(ns.reach, Eq(r, in)), "slices.Contains on an integer slice: true iff some element equals the value")
+			q := Atom("q_ci", SInt)
+			vc.Assume(Implies(And(ns.reach, Not(r)), Term{S: fmt.Sprintf("(forall ((q_ci Int)) (! (=> (and (<= 0 q_ci) (< q_ci %s)) (not (= %s %s))) :pattern (%s)))",
+				slLen(s).S, Select(slArr(s), q).S, v.S, Select(slArr(s), q).S), Sort: SBool}), "slices.Contains false: no element equals the value")
+		}
+		return []Val{{T: r}}
+	}
+}
